@@ -282,12 +282,39 @@ ALL = [f'C{i:02d}' for i in range(1, 21)]
 NOT_BUILT_REASON = 'check not built yet in this round (planned, see DESIGN.md section 3); not claimed until it runs'
 
 
+# additions made after the seeded-change waves 2 and 3 (DESIGN.md 8.6 / 8.7), appended to the level text
+ADDENDA = {
+    'C01': 'Three-band split/merge and multi-band propagations in which one band carries a single channel are included.',
+    'C02': 'Includes negative-dispersion fibres, a ROADM profile with every documented impairment field, and two-comb histories on one RamanFiber object.',
+    'C03': 'Includes simulation-parameter variants the analytic method must ignore, the dispersion-to-beta2 conversion, comb sequences with the same ends and count but other inner placement on one fibre object, and order independence through both constructors.',
+    'C04': 'Includes dual-stage models made of polynomial-NF stages and amplifier objects that have already amplified another comb.',
+    'C05': 'Includes fibres used before, Raman fibres with an input pad and unequal connectors, and multi-band paths whose per-band amplifiers have different PMD/PDL.',
+    'C06': 'Includes carriers supplied out of frequency order, equally sized spectra in different loss ranges crossing one ROADM object one after the other, and libraries listing their impairment profiles in both orders with an explicit choice of profile id 0.',
+    'C07': 'Includes a wide single-band section in front of a multi-band section, a second spectrum with another band split on the same element objects, and one request object propagated in both directions.',
+    'C08': 'Includes site-dependent design bands (two-band and single-band ROADMs mixed) and the consistency of every designed multi-band amplifier with its declared type.',
+    'C09': 'Includes an operator VOA on the last amplifier of a degree followed by further degrees of the same ROADM.',
+    'C10': 'Includes a model cut at the high band edge, a model whose NF lies inside another model\'s extended-gain window, an operator VOA on an automatic amplifier and an amplifier slot behind a fused element.',
+    'C11': 'Includes include lists along every 2-3 (thorough: 4) link walk (loops), ordered ROADM triples, the destination closing the list, near-tie lengths over split fibres and API-built requests in sequence.',
+    'C12': 'Includes links whose two fibres have different lengths.',
+    'C13': 'The reverse-direction figures of the automatic request are compared with those of the same mode imposed.',
+    'C14': 'One world is brought to a common grid by align_grids from maps of different extents.',
+    'C15': 'Includes a ring with one-way links (OMS without an opposite direction).',
+    'C16': 'Includes requests that differ only in transmitter power, a GGN NLI method with a number of computed channels, and a two-band network.',
+    'C17': 'Includes designs of the same input in separate interpreter processes under several string-hash seeds and after a design against another library, and PMD/PDL/CD/latency among the compared figures.',
+    'C18': 'Includes YANG documents whose keyed lists are written in three other entry orders and the caller\'s own legacy document passed to the converter.',
+    'C19': 'Includes transmitter-power twins, two bidirectional requests from one source (solo-run oracle), a slot centred on N = 0 and the CSV export against a second library with the same names.',
+    'C20': 'Includes two rows disjoint from the same request, west cells equal to 0 next to non-zero east cells and a loose route list whose first entry is unknown.',
+}
+
+
 def main():
     checks = []
     for pid in ALL:
         if pid not in CHECKS:
             continue
         tech, text, note, ref = CHECKS[pid]
+        if pid in ADDENDA:
+            text = text + ' ' + ADDENDA[pid]
         checks.append({
             'property_id': pid,
             'quick_cmd': f'./check {pid} --tier quick',
